@@ -43,6 +43,7 @@ class CloneCall:
     pattern: str  # "clone-in-loop", "clone-chain", "unnecessary-clone"
     is_in_test: bool
     context: str  # Surrounding code snippet
+    other_patterns: tuple[str, ...] = ()  # further patterns the call matches, in priority order
 
 
 class RustCloneAnalyzer(RustBaseAnalyzer):
@@ -79,15 +80,16 @@ class RustCloneAnalyzer(RustBaseAnalyzer):
         if node.type == "call_expression":
             method_name = self._get_method_name(node)
             if method_name == "clone":
-                pattern = self._classify_clone(node, code)
-                if pattern is not None:
+                patterns = self._matching_patterns(node)
+                if patterns:
                     calls.append(
                         CloneCall(
                             line=node.start_point[0] + 1,
                             column=node.start_point[1],
-                            pattern=pattern,
+                            pattern=patterns[0],
                             is_in_test=self.is_inside_test(node),
                             context=get_line_context(code, node.start_point[0]),
+                            other_patterns=tuple(patterns[1:]),
                         )
                     )
 
@@ -143,6 +145,19 @@ class RustCloneAnalyzer(RustBaseAnalyzer):
         if self._is_unnecessary_clone(node):
             return "unnecessary-clone"
         return None
+
+    def _matching_patterns(self, node: Node) -> list[str]:
+        """List every abuse pattern a clone call matches, in priority order (chain, loop, unnecessary).
+
+        The first entry is what _classify_clone returns; the others matter when that pattern is
+        switched off in the configuration (a chained clone inside a loop is still a clone in a loop).
+        """
+        checks = (
+            ("clone-chain", self._is_chained_clone),
+            ("clone-in-loop", self._is_inside_loop),
+            ("unnecessary-clone", self._is_unnecessary_clone),
+        )
+        return [name for name, matches in checks if matches(node)]
 
     def _is_inside_loop(self, node: Node) -> bool:
         """Check if node is inside a loop body.
